@@ -1,12 +1,13 @@
 import Driver.Wire
 import Driver.Ops.Handoff
+import Driver.Ops.Units
 /-
 Line-protocol driver: `lake env lean --run Driver/Main.lean < ops.txt > answers.txt`
 -/
 open Wire
 
 def allOps : List (String × P String) :=
-  Ops.Handoff.ops
+  Ops.Handoff.ops ++ Ops.Units.ops
 
 def answer (line : String) : String :=
   match (line.splitOn " ").filter (· ≠ "") with
